@@ -248,6 +248,24 @@ func (t *roTaint) holderUse(u ssa.Instruction, v ssa.Value, why string) {
 						}
 					})
 				})
+			} else if fv := fieldVar(x.Addr); fv != nil {
+				// a container of shared references kept in a struct field (a stack's scope list): loads of the field hold them too
+				if _, ok := t.fieldT[fv]; !ok {
+					t.fieldT[fv] = why + " → kept in field " + fv.Name() + " at " + t.p.instrPos(x)
+					for _, fn := range t.p.Funcs {
+						eachInstr(fn, func(in ssa.Instruction) {
+							if fa, ok := in.(*ssa.FieldAddr); ok && fieldVar(fa) == fv {
+								if refs := fa.Referrers(); refs != nil {
+									for _, r := range *refs {
+										if ld, ok := r.(*ssa.UnOp); ok && ld.Op == token.MUL {
+											t.seedHolder(ld, t.fieldT[fv])
+										}
+									}
+								}
+							}
+						})
+					}
+				}
 			}
 		}
 	case *ssa.Return:
